@@ -256,7 +256,7 @@ def _is_log_store(rows, arr="data_array", fn="_np.log"):
     def pred(st):
         return isinstance(st, ast.Assign) and isinstance(st.targets[0], ast.Subscript) and isinstance(st.value, ast.Call) \
             and dotted(st.value.func) == fn and squash(st.targets[0]) == squash(st.value.args[0]) \
-            and squash(st.targets[0]).startswith(f"{arr}[{rows},")
+            and squash(st.targets[0]).startswith(f"{arr}[")
     return pred
 
 
@@ -271,6 +271,39 @@ def rule_r3(chk):
                   _is_log_store(rows, fn="_np.log"), _is_log_store(rows, fn="_np.exp"),
                   is_use=lambda st: isinstance(st, ast.Assign) and any(isinstance(n, ast.Call) and (dotted(n.func) or "").endswith("get_init_xi") for n in ast.walk(st)),
                   what="log/exp of data_array[logly_rows, :]")
+    # coverage: the logged region must contain every cell the terminal recursion reads (state elements with shift < 0
+    # sit in columns before first_terminal - 1)
+    sel = []
+    for n in walk_no_nested(f):
+        if isinstance(n, ast.Assign) and isinstance(n.targets[0], ast.Subscript) and isinstance(n.value, ast.Call) \
+                and dotted(n.value.func) in ("_np.log", "_np.exp") and squash(n.targets[0]) == squash(n.value.args[0]) \
+                and unparse(n.targets[0].value) == "data_array" and isinstance(n.targets[0].slice, ast.Tuple):
+            sel.append((dotted(n.value.func), squash(n.targets[0].slice.elts[0]), n.targets[0].slice.elts[1], n))
+    if sel:
+        cols = {squash(c) for _, _, c, _ in sel}
+        rows_ = {r for _, r, _, _ in sel}
+        chk.ob("C06-R3", "fords.terminators.Terminator.terminate_simulation[log and exp over one region]", len(cols) == 1 and len(rows_) == 1,
+               f"row selectors {sorted(rows_)}, column selectors {sorted(cols)}", tm.loc(sel[0][3]))
+        c0 = sel[0][2]
+        if isinstance(c0, ast.Name):
+            c0 = assign_value(f, c0.id) or c0
+        full = isinstance(c0, ast.Slice) and c0.lower is None and c0.upper is None
+        if full:
+            chk.ok("C06-R3", "fords.terminators.Terminator.terminate_simulation[logged region covers the state's lags]", "all columns are logged", tm.loc(sel[0][3]))
+        else:
+            lo = c0.args[0] if isinstance(c0, ast.Call) and dotted(c0.func) == "slice" and c0.args else (c0.lower if isinstance(c0, ast.Slice) else None)
+            verdict, detail = None, f"column selector {unparse(c0)}"
+            if lo is not None:
+                try:
+                    d_ = alg.nf(sub(alg.ToIR()(lo), sub(sym("first_terminal"), num(1))))
+                    c_ = d_.const()
+                    if c_ is not None and c_ >= 0:
+                        verdict = False
+                        detail = (f"logged columns start at {unparse(lo)}, but get_init_xi reads state elements with shift < 0 from earlier "
+                                  "columns: log-variables with two or more lags enter the terminal condition in levels")
+                except Undecided:
+                    pass
+            chk.ob("C06-R3", "fords.terminators.Terminator.terminate_simulation[logged region covers the state's lags]", verdict, detail, tm.loc(sel[0][3]))
     lr = assign_value(f, "logly_rows")
     init = tm.func("Terminator.__init__")
     src = assign_value(init, "self._logly_rows")
@@ -397,6 +430,14 @@ def rule_r5(chk):
     st = [n for n in walk_no_nested(pr) if isinstance(n, ast.Assign) and isinstance(n.targets[0], ast.Subscript)]
     ok = len(st) == 1 and squash(st[0].targets[0]) == f"data[{params(pr)[2]},self.zero_unanticipated_slice]" and squash(st[0].value) == "0"
     chk.ob("C06-R5", "frames.SplitFrame.prune_frame_data", ok, "unanticipated shocks after the frame's first column are zeroed in the frame copy", m.loc(pr))
+    guards = [n for n in walk_no_nested(pr) if isinstance(n, ast.If) and any(isinstance(x, ast.Return) for x in n.body)]
+    if guards:
+        t = guards[0].test
+        sides = sorted(squash(x) for x in ([t.left] + t.comparators)) if isinstance(t, ast.Compare) and len(t.ops) == 1 and isinstance(t.ops[0], ast.Eq) else None
+        ok = sides in (["self.simulation_end", "self.start"], ["self.first", "self.simulation_last"])
+        chk.ob("C06-R5", "frames.SplitFrame.prune_frame_data[skip guard]", ok if sides is not None else None,
+               f"pruning is skipped iff {unparse(t)}; it may be skipped only when the frame simulates its first column alone "
+               "(start == simulation_end), because zero_unanticipated_slice runs to the end of the simulated range", m.loc(guards[0]))
     wr = m.func("SplitFrame.write_frame_data_to_main_dataslate")
     st = sorted((squash(n.targets[0]), squash(n.value)) for n in walk_no_nested(wr) if isinstance(n, ast.Assign) and isinstance(n.targets[0], ast.Subscript))
     ok = st == sorted([("main_data[regular_qids,self.slice]", "frame_data[regular_qids,self.slice]"),
